@@ -127,7 +127,9 @@ def classify(rec):
     if not raw:
         return 'noresp'
     p = lworld.parse_response(raw)
-    if p is None or 'status' not in p:
+    if p is None or 'status' not in p or p['problems']:
+        # not exactly one syntactically valid response (e.g. trailing bytes
+        # of a second response after the first one)
         return 'garbled'
     if p['status'] != 200:
         return 'http%d' % p['status']
